@@ -238,7 +238,7 @@ def _shard(arg):
 
 
 def run(ctx):
-    n = 600 if ctx.quick else 12000
+    n = 600 if ctx.quick else 40000
     shards = []
     for k in range(16):
         drv = ASYNC[k % 4]
